@@ -294,7 +294,8 @@ def cleanup_scratch():
         shutil.rmtree(BIN, ignore_errors=True)
         shutil.rmtree(BIN + '-race', ignore_errors=True)
         # inventories regenerated from the other tree: put back the committed ones (they are regenerated from /repo on every C02/C10 run anyway)
-        subprocess.run(['git', '-C', VERIF, 'checkout', '--', 'coq/Gen'], capture_output=True)
+        with _Lock():
+            subprocess.run(['git', '-C', VERIF, 'checkout', '--', 'coq/Gen'], capture_output=True)
 
 
 def parse_verdicts(out):
